@@ -174,6 +174,12 @@ const STRAIGHT: &[&str] = &[
 /// straight-line code, counted loops, subroutines (nesting <= 2), optional
 /// macro / .loop expansion so several addresses map to one line, asserts/traces.
 pub fn gen_program(rng: &mut Rng) -> (String, Option<String>) {
+    let (m, l, _) = gen_program_ext(rng);
+    (m, l)
+}
+
+/// (main.asm, lib.asm, the program contains a long-running subroutine)
+pub fn gen_program_ext(rng: &mut Rng) -> (String, Option<String>, bool) {
     let mut top = String::new();
     let use_macro = rng.chance(1, 3);
     if use_macro {
@@ -234,26 +240,48 @@ pub fn gen_program(rng: &mut Rng) -> (String, Option<String>) {
         _ => body.push_str("    brk\n"),
     }
     let mut subs = String::new();
+    let mut long_running = false;
     for s in 0..n_subs {
         subs.push_str(&format!("sub{}:\n", s));
-        let mut sub = String::new();
-        // sub1 may call sub0 (nesting <= 2), sub0 calls nothing
-        emit_block(rng, &mut sub, 1, if s > 0 { 1 } else { 0 }, s > 0);
-        subs.push_str(&sub);
+        match rng.below(12) {
+            // recursion: the same code runs in several activations at once
+            0 | 1 if s == 0 => {
+                subs.push_str(&format!("    ldx #{}\nrec{}:\n    dex\n    beq rdone{}\n    jsr rec{}\nrdone{}:\n", rng.range(2, 4), s, s, s, s));
+            }
+            // a delay loop of about 70 000 instructions: one `next` or `stepOut` has a lot to run through
+            2 if !long_running => {
+                long_running = true;
+                subs.push_str(&format!("    ldx #{}\ndla{}:\n    ldy #0\ndlb{}:\n    dey\n    bne dlb{}\n    dex\n    bne dla{}\n", rng.range(132, 140), s, s, s, s));
+            }
+            _ => {
+                let mut sub = String::new();
+                // sub1 may call sub0 (nesting <= 2), sub0 calls nothing
+                emit_block(rng, &mut sub, 1, if s > 0 { 1 } else { 0 }, s > 0);
+                subs.push_str(&sub);
+            }
+        }
+        if rng.chance(1, 4) {
+            // something else than the return address on the stack for a while
+            subs.push_str(&format!("    pha\n    {}\n    pla\n", rng.pick(STRAIGHT)));
+        }
+        if rng.chance(1, 8) {
+            // the "run it twice" idiom: a call to the very next instruction
+            subs.push_str(&format!("    jsr twice{}\ntwice{}:\n    inc $13\n", s, s));
+        }
         subs.push_str("    rts\n");
     }
     // one program with subroutines in three keeps them in a file of its own
     if n_subs > 0 && !use_macro && rng.chance(1, 3) {
         body.push_str("    .import * from \"lib.asm\"\n");
-        return (format!("{}.test \"t\" {{\n{}}}\n", top, body), Some(subs));
+        return (format!("{}.test \"t\" {{\n{}}}\n", top, body), Some(subs), long_running);
     }
     body.push_str(&subs);
-    (format!("{}.test \"t\" {{\n{}}}\n", top, body), None)
+    (format!("{}.test \"t\" {{\n{}}}\n", top, body), None, long_running)
 }
 
 pub fn gen_case(seed: u64, k: u64) -> Case {
     let mut r = Rng::new(rng::derive(seed, "c19.case", k));
-    let (program, lib) = gen_program(&mut r);
+    let (program, lib, long_running) = gen_program_ext(&mut r);
     let code_lines_of = |text: &str| -> Vec<usize> {
         text.lines()
             .enumerate()
@@ -365,7 +393,8 @@ pub fn gen_case(seed: u64, k: u64) -> Case {
                 stall_bound_us: 1_000_000,
             },
             net: mos_simrt::net::NetKnobs { max_chunk: *r.pick(&[0usize, 0, 0, 3, 64]), buffer_cap: *r.pick(&[1usize << 20, 1 << 20, 4096]) },
-            max_steps: 600_000,
+            // a long-running subroutine costs a few scheduling steps per instruction
+            max_steps: if long_running { 4_000_000 } else { 600_000 },
         },
         end_with_drop: r.chance(1, 4),
         fast_client,
@@ -390,6 +419,8 @@ pub struct TraceEntry {
     pub opcode: u8,
     /// return target on top of the reference call stack before this instruction
     pub return_to: Option<u16>,
+    /// number of subroutine activations this instruction runs in (0 = the test body itself)
+    pub depth: u16,
 }
 
 #[derive(Clone, Debug)]
@@ -501,6 +532,7 @@ impl Reference {
             flags: cpu.get_status_register(),
             opcode: 0,
             return_to: self.call_stack.last().cloned(),
+            depth: self.call_stack.len() as u16,
         };
         self.trace.push(entry);
         let sp_before = runner.cpu().get_stack_pointer();
@@ -582,14 +614,14 @@ impl Reference {
         self.trace.binary_search_by(|t| t.cycles.cmp(&cyc)).ok()
     }
 
-    /// first position >= `from` at which the program counter is `target`
-    pub fn find_pc_from(&mut self, from: usize, target: u16) -> Option<usize> {
+    /// first position >= `from` whose entry satisfies `pred` (the run is extended as needed)
+    pub fn find_from(&mut self, from: usize, pred: impl Fn(&TraceEntry) -> bool) -> Option<usize> {
         let mut k = from;
         loop {
             if k >= self.trace.len() && !self.extend_one() && k >= self.trace.len() {
                 return None;
             }
-            if self.trace[k].pc == target {
+            if pred(&self.trace[k]) {
                 return Some(k);
             }
             k += 1;
@@ -702,6 +734,11 @@ impl<'a> Session<'a> {
             None => return Ok(None),
         };
         let idx = self.reference.index_of_cycles(cyc);
+        if idx.is_none() && !self.reference.complete() && self.reference.trace.last().map(|t| t.cycles < cyc).unwrap_or(true) {
+            // the machine has run further than the reference run is followed (HARD_TRACE_CAP): nothing to compare with
+            self.v.notes.push(format!("CYC {} lies beyond the {} instructions of the reference run that are followed", cyc, self.reference.trace.len()));
+            return Ok(None);
+        }
         if idx.is_none() {
             self.fail("state_not_on_reference_run", "state_not_on_reference_run", format!("registers report CYC={} which is not a state of the uninterrupted run", cyc));
             return Ok(None);
@@ -855,8 +892,10 @@ impl<'a> Session<'a> {
             Op::StepIn => next_one,
             Op::Next => {
                 if t_i.opcode == 0x20 {
-                    let target = t_i.pc.wrapping_add(3);
-                    match self.reference.find_pc_from(i + 1, target) {
+                    // the call is one step: the next position at which its activation is gone again
+                    // (recursion and `jsr` to the following instruction reach pc+3 earlier, deeper down)
+                    let d = t_i.depth;
+                    match self.reference.find_from(i + 1, |t| t.depth <= d) {
                         Some(k) => Some(k),
                         None if self.reference.complete() => Some(self.reference.trace.len() - 1),
                         None => None,
@@ -865,14 +904,19 @@ impl<'a> Session<'a> {
                     next_one
                 }
             }
-            Op::StepOut => match t_i.return_to {
-                Some(target) => match self.reference.find_pc_from(i, target) {
-                    Some(k) => Some(k),
-                    None if self.reference.complete() => Some(self.reference.trace.len() - 1),
-                    None => None,
-                },
-                None => Some(i),
-            },
+            Op::StepOut => {
+                if t_i.depth == 0 {
+                    Some(i)
+                } else {
+                    // the instruction after the call that created the current activation
+                    let d = t_i.depth;
+                    match self.reference.find_from(i + 1, |t| t.depth < d) {
+                        Some(k) => Some(k),
+                        None if self.reference.complete() => Some(self.reference.trace.len() - 1),
+                        None => None,
+                    }
+                }
+            }
             _ => Some(i),
         }
     }
